@@ -194,6 +194,7 @@ def run_long(task):
         for si, cut in enumerate(msplits):
             bounds = [0] + list(cut) + [m_n]
             rm = RunningCovarianceMatrix(nser)
+            reads = []
             for ci in range(len(bounds) - 1):
                 a, b = bounds[ci], bounds[ci + 1]
                 if a == b:
@@ -203,7 +204,18 @@ def run_long(task):
                     chunk = [np.array(c_) for c_ in chunk]
                 rm.update_from_it(*chunk)
                 out["transitions"] += 1
+                if rm.count >= 2:
+                    # (what was read is a value: it stays what it was)
+                    for m_ in (rm.covar_matrix, rm.sample_covar_matrix):
+                        reads.append((m_, np.array(m_, copy=True), rm.count))
             out["states"] += 1
+            for m_, was, cnt in reads:
+                if not np.array_equal(m_, was):
+                    out["vio"].setdefault(tag + "matrix-read-changed", (
+                        {"n": m_n, "series": nser, "cuts": cut},
+                        "a matrix read after %d samples changed when the "
+                        "object was read / fed again" % cnt))
+                    break
             got = rm.covar_matrix
             if rm.count != m_n or not np.allclose(got, np.array(exact),
                                                   rtol=0, atol=tol):
